@@ -449,6 +449,39 @@ func TrickyCases(rng *rand.Rand, prefix string) []Case {
 	return out
 }
 
+// ImportNameCases returns documented-legal definitions whose message types are imported from a Go package whose name equals
+// the name of a package the generated code itself imports (fmt, encoding, gorums, context, grpc, ...). The generator must keep
+// its own references and the imported types apart (protogen renames one of the two imports).
+func ImportNameCases(rng *rand.Rand, prefix string) []Case {
+	var out []Case
+	n := 0
+	for _, pn := range []string{"fmt", "encoding", "gorums", "context", "grpc", "ordering", "protoreflect", "codes", "status", "proto"} {
+		for v := 0; v < 2; v++ {
+			n++
+			b := newBuilder(rng, fmt.Sprintf("%s%d", prefix, n))
+			b.dep = &svcdesc.File{Name: b.id + "/" + pn + "/dep.proto", Package: b.pkg + "dep", GoPackage: b.gopkg + "/" + pn,
+				Messages: []svcdesc.Message{msg("Shared"), msg("Other")}}
+			b.f.Deps = append(b.f.Deps, b.dep.Name)
+			in := b.addMsg("Req")
+			imp := func() string { return "." + b.dep.Package + "." + []string{"Shared", "Other"}[rng.Intn(2)] }
+			var ms []svcdesc.Method
+			if v == 0 {
+				ms = []svcdesc.Method{{Name: "Q", In: in, Out: imp(), Opts: svcdesc.Opts{Quorumcall: true}},
+					{Name: "A", In: imp(), Out: imp(), Opts: svcdesc.Opts{Quorumcall: true, Async: true}},
+					{Name: "C", In: in, Out: imp(), Opts: svcdesc.Opts{Correctable: true}, ServerStream: true},
+					{Name: "M", In: imp(), Out: b.useEmpty(), Opts: svcdesc.Opts{Multicast: true}}}
+			} else {
+				ms = []svcdesc.Method{{Name: "R", In: imp(), Out: imp()},
+					{Name: "U", In: imp(), Out: b.addMsg("Nothing"), Opts: svcdesc.Opts{Unicast: true}},
+					{Name: "P", In: imp(), Out: imp(), Opts: svcdesc.Opts{Quorumcall: true, PerNodeArg: true}}}
+			}
+			b.f.Services = []svcdesc.Service{{Name: "Svc", Methods: ms}}
+			out = append(out, b.build("legal", "accept", "message types imported from a Go package named "+pn+": "+describe(ms)))
+		}
+	}
+	return out
+}
+
 // MultiFileCases returns requests that ask for two files at once: two services in different packages that share a method
 // name (and message names) but give it different call types. Each file alone is documented-legal, so the request is.
 func MultiFileCases(rng *rand.Rand, prefix string) []Case {
